@@ -128,6 +128,13 @@ def gen_ops(quick, seed):
             if av is not NOSTORE:
                 out.append(ps("un:%s%s:p" % (u, an), "probe(%spx)" % u, pt={"meas": "m", "tags": {}, "fields": {"px": av}},
                               tag="unary operator on a point key"))
+    # compound assignment: the right operand is evaluated exactly once - also when the target does not exist, exists only as a point key,
+    # or is of a kind the operator refuses (pv logs its argument and returns it)
+    for op in ASSIGNOPS:
+        for pre, tgt in [("", "u"), ("", "px"), ("x = 1\n", "x"), ('x = "s"\n', "x"), ("x = nil\n", "x"), ("x = [1]\n", "x"), ("x = 1.5\n", "x")]:
+            for rhs in ["pv(3)", "pv(2) + pv(1)", 'pv("t")', "pv(nil)"]:
+                out.append(ps("casg:%s%s%s%s" % (pre[:6], tgt, op, rhs), "%s%s %s %s\nprobe(%s)\nprobe(9)" % (pre, tgt, op, rhs, tgt),
+                              pt={"meas": "m", "tags": {}, "fields": {"px": 4}}, tag="compound assignment: right operand evaluated once, whatever the target"))
     # evaluation order, exactly once, short circuit: pv(x) logs its argument and returns it
     vals = ["true", "false", "1", "0", '"s"', "nil", "1.5"]
     for op in BINOPS:
@@ -946,6 +953,11 @@ def gen_check(quick, seed):
            ("if x {\nz = 1\n} elif y {\n%s\n} else {\nq = [%s]\n}", False), ("if x {\n%s\n} else {\nz = 1\n}\nif y {\n%s\n}", False),
            ("%s\nif x {\nz = 1\n} else {\n%s\n}", True), ("%s\nif x {\nz = 1\n} elif %s {\nz = 2\n}", True),
            ("if x {\n%s\nif y {\nz = 1\n} else {\n%s\n}\n}", True), ("for v in [1] {\n%s\nif y {\nz = 1\n} elif z {\n%s\n}\n}", True)]
+    AP2 = 'add_pattern("own", "[a-z]+")'
+    sib += [("%s\nif x {\n" + AP2 + "\n%s\n}", True), ("%s\nfor v in [1] {\n" + AP2 + "\nif v {\n%s\n}\n}", True),
+            ("%s\nif x {\nz = 1\n} else {\n" + AP2 + "\nadd_pattern(\"both\", \"%%{sib} %%{own}\")\n%s\n}", True),
+            ("%s\nfor i = 0; i < 1; i = i + 1 {\n" + AP2 + "\n" + AP2.replace("own", "own2") + "\n%s\n}", True),
+            ("if x {\n" + AP2 + "\n}\n%s\n%s", True)]
     for t, ok in sib:
         add(t % (AP, G), False, "pattern declared in a sibling branch / ended block" if not ok else "pattern declared in an enclosing block")
     for f, use in [("one", "x = [1, 2][one(0):]"), ("void", "void()")]:
@@ -1166,6 +1178,10 @@ SCOPE_TEMPLATES = [
     "@D@\n@D@\n@G@", 'add_pattern("my", "[a-c]+")\nif true {\n@D@\n@G@\n}\n@G@', '@D@\nif true {\nadd_pattern("my", "[a-c]+")\n}\n@G@',
     'add_pattern("WORD", "\\\\d+")\nok = grok(k, "%{WORD:w:str}")\nprobe(ok, w)', 'if true {\nadd_pattern("WORD", "\\\\d+")\n}\nok = grok(k, "%{WORD:w:str}")\nprobe(ok, w)',
     '@D@\nadd_pattern("pair", "%{my}-%{my}")\nok = grok(k2, "%{pair:p}")\nprobe(ok, p)', 'add_pattern("pair", "%{my}-%{my}")\n@D@\nok = grok(k2, "%{pair:p}")',
+    # a dependency re-declared, then the dependent re-declared with the very same text: the new declaration is expanded against what is
+    # visible NOW (same block, and from a nested block)
+    '@D@\nadd_pattern("pair", "%{my}-%{my}")\nadd_pattern("my", "[a-c]+")\nadd_pattern("pair", "%{my}-%{my}")\nok = grok(k2, "%{pair:p}")\nprobe(ok, p)\nok = grok(k3, "%{pair:p}")\nprobe(ok, p)',
+    '@D@\nadd_pattern("pair", "%{my}-%{my}")\nif true {\nadd_pattern("my", "[a-c]+")\nadd_pattern("pair", "%{my}-%{my}")\nok = grok(k3, "%{pair:p}")\nprobe(ok, p)\n}\nok = grok(k2, "%{pair:p}")\nprobe(ok, p)',
     'ok = grok(k, "%{NOSUCHPATTERN:x}")', 'add_pattern("a", "%{NOSUCHPATTERN}")', '@D@\nok = grok(k, "%{my:num:int} %{other:o}")',
     'if true {\n@D@\n}\nif true {\n@G@\n}', 'for v in [1] {\n@D@\n}\nfor v in [1] {\n@G@\n}',
     # empty blocks next to a definition change nothing about where it is visible
@@ -1181,7 +1197,7 @@ def gen_scope(quick, seed):
     out = []
     for i, t in enumerate(SCOPE_TEMPLATES):
         text = t.replace("@D@", SCOPE_D).replace("@G@", SCOPE_G)
-        p = ps("scope:%d" % i, text, pt={"meas": "m", "tags": {}, "fields": {"k": "abc 123", "k2": "x 12-34 y"}}, tag="add_pattern scoping")
+        p = ps("scope:%d" % i, text, pt={"meas": "m", "tags": {}, "fields": {"k": "abc 123", "k2": "x 12-34 y", "k3": "x ab-ca y"}}, tag="add_pattern scoping")
         p["without"] = []
         out.append(p)
     return out
